@@ -170,6 +170,11 @@ func (m *Machine) callSSA(caller *frame, pos token.Pos, fn *ssa.Function, args [
 	if !m.eng.allowed(fn) {
 		panic(abort("unmodelled call " + fn.String() + " at " + m.pos(pos)))
 	}
+	if !m.inSummary && summarisable[fn.String()] {
+		if v, ok := m.summarise(caller, pos, fn, args, env); ok {
+			return v
+		}
+	}
 	m.depth++
 	if m.depth > m.maxDepth {
 		panic(abort("call depth limit"))
@@ -428,6 +433,7 @@ func (fr *frame) visit(instr ssa.Instruction) continuation {
 		x := fr.get(instr.X)
 		switch x := x.(type) {
 		case *MapV:
+			fr.m.flushPending(x)
 			fr.env[instr] = &MapIter{m: x}
 			m.orderNondet = true
 		case Str:
@@ -657,4 +663,74 @@ func (m *Machine) cover(fn *ssa.Function, b *ssa.BasicBlock) {
 		return
 	}
 	m.covered[b] = struct{}{}
+}
+
+// ---------- summaries of pure boolean callees ----------
+
+// summarisable: pure functions (no heap writes, no events) returning one bool. All their
+// paths are explored locally and the result is returned as one formula, so callers fork
+// on the result only (not on the callee's internal case split).
+var summarisable = map[string]bool{}
+
+func (m *Machine) summarise(caller *frame, pos token.Pos, fn *ssa.Function, args []Value, env []Value) (res Value, ok bool) {
+	if fn.Signature.Results().Len() != 1 {
+		return nil, false
+	}
+	if b, isB := fn.Signature.Results().At(0).Type().Underlying().(*types.Basic); !isB || b.Kind() != types.Bool {
+		return nil, false
+	}
+	basePC := len(m.pc)
+	saveTrail, saveTpos, savePending := m.trail, m.tpos, m.pending
+	saveEvents := len(m.events)
+	truncate := func() {
+		for _, t := range m.pc[basePC:] {
+			delete(m.pcSet, t)
+		}
+		m.pc = m.pc[:basePC]
+	}
+	restore := func() {
+		truncate()
+		m.trail, m.tpos, m.pending = saveTrail, saveTpos, savePending
+		m.inSummary = false
+	}
+	m.inSummary = true
+	work := [][]int{{}}
+	var result *Term = tFalse
+	failed := false
+	for len(work) > 0 && !failed {
+		t := work[len(work)-1]
+		work = work[:len(work)-1]
+		m.trail = append([]int{}, t...)
+		m.tpos = 0
+		m.pending = nil
+		var val Value
+		func() {
+			defer func() {
+				if r := recover(); r != nil {
+					if pe, isPE := r.(pathEnd); isPE && pe.kind == "infeasible" {
+						val = nil
+						return
+					}
+					failed = true
+				}
+			}()
+			val = m.callSSA(caller, pos, fn, args, env)
+		}()
+		if failed || len(m.events) != saveEvents {
+			failed = true
+			break
+		}
+		if val != nil {
+			cond := TAnd(m.pc[basePC:]...)
+			result = TOr(result, TAnd(cond, boolTerm(val)))
+		}
+		work = append(work, m.pending...)
+		truncate()
+	}
+	restore()
+	if failed {
+		m.events = m.events[:saveEvents]
+		return nil, false
+	}
+	return mkBool(result), true
 }
